@@ -1140,12 +1140,23 @@ LEVEL_TEXT = ("Machine-checked (Coq) theorems over an executable model of Simple
               "warning per object; after clearAll / DESTRUCTION the object holds nothing of its underlying allocator and, outermost, every "
               "recorder block obtained since its construction is back), the final books are balanced, one installed object IS the cache "
               "model, and the destructor that only calls clearCache is refuted. Observed on real GlobalSimpleStringCache objects with "
-              "forwarding recorders between the levels.")
+              "forwarding recorders between the levels. ENVIRONMENT of one object (coq/C18_ModelE.v): five allocators with their own books (default "
+              "malloc allocator, two recording malloc allocators made current at any point, the base string allocator U, a string allocator T "
+              "installed on top), U building a string of its own inside free_memory / alloc_memory through whatever string allocator is in force; "
+              "proved for every valid history: every block goes back only to the allocator it came from, at most once, with its size; every buffer "
+              "handed out (to the scenario or to U's own string) lies in a block obtained and not given back and overlaps no buffer in use; when "
+              "the object is gone every block of every allocator obtained since its construction began is back (the whole trace is legal in the "
+              "allocators' own books); without re-entry the mode's operations are alloc / dealloc / clear_all of the cache model; the three "
+              "round-5 red-team variants (table from the current malloc allocator, guarded destructor, clear before uninstall) are refuted.")
 LEVEL_NOTE = ("Partial for memory safety: real accesses are seen only by ASan (blocks given back are poisoned). Trusted: Coq kernel, extraction, "
               "harness, generator. Modelled not verified: the C++ itself. Class sizes, bound, node count and struct sizes are re-read from the "
               "source on every run. The bare destructor does not walk the lists (documented limit: owners clear first). Installed scenarios: "
               "the node array (malloc allocator) is outside the recorder's books; the strings the warning builds for itself are served outside "
               "the cache by the harness; an object nested in another returns buffers above the bound with size 0, which the outer cache keeps "
-              "(one spurious warning) until it dies -- modelled and judged as such, not counted as a violation.")
+              "(one spurious warning) until it dies -- modelled and judged as such, not counted as a violation. Environment scenarios: one "
+              "object at a time, no unknown releases, no explicit clear of an installed cache (GlobalSimpleStringCache offers none; on the "
+              "unchanged tree an explicit clearCache of an installed cache over a re-entering allocator serves the allocator's string from a "
+              "block just returned -- documented in docs/asbuilt/C18_addendum.md, outside the language); the adaptor object (new / delete) is "
+              "outside the books; the re-entering allocator is the harness' own (guarded against re-entering itself).")
 TECHNIQUE = "Coq proof over hand-written executable model + extracted-model/implementation correspondence check (differential, exhaustive small histories)"
 READY = True
